@@ -156,6 +156,13 @@ def build_check(cs, dtype=None):
     if k == "notin":
         return C.notin([_arg(v, dtype) for v in a["forbidden_values"]], **kw)
     if k in ("str_matches", "str_contains"):
+        if a.get("flags") is not None:
+            import re
+
+            fl = 0
+            for f in a["flags"]:
+                fl |= getattr(re, f)
+            return getattr(C, k)(re.compile(a["pattern"], fl), **kw)
         return getattr(C, k)(a["pattern"], **kw)
     if k in ("str_startswith", "str_endswith"):
         return getattr(C, k)(a["string"], **kw)
